@@ -23,7 +23,7 @@ SPEC = {
     "assumptions": ["node labels are non-negative integers (the writer prints label+1)", "attributes outside the format's ranges are outside the property's domain and not generated",
                     "a coordinate key that is absent from an atom means 0 for that coordinate (as for graphs from TUCAN strings, which carry none; 2-D layouts carry x and y only)"],
     "monitors_required": ["c09_writer", "c09_cycle"],
-    "required_obs": {"quick": ["logical_line_len/70", "logical_line_len/71", "logical_line_len/72", "logical_line_len/73", "logical_line_len/74", "logical_line_len/75",
+    "required_obs": {"quick": ["cov_coordinates_near_output_precision", "logical_line_len/70", "logical_line_len/71", "logical_line_len/72", "logical_line_len/73", "logical_line_len/74", "logical_line_len/75",
                                "logical_line_len/142", "logical_line_len/143", "logical_line_len/144", "logical_line_len/213", "logical_line_len/214", "logical_line_len/215",
                                "wraps_per_logical_line/0", "wraps_per_logical_line/1", "wraps_per_logical_line/2", "wraps_per_logical_line/3",
                                "cov_zero_bonds", "cov_parser_made", "cov_corpus", "cov_wide_bond_line", "cov_wrapped_bond_line_by_construction", "wrapped_bond_lines", "cov_mixed_zero_and_nonzero_coordinates", "cov_partial_coordinate_keys"]},
@@ -169,6 +169,15 @@ def run(ctx):
                 if rng.random() < 0.2:
                     a.y = -0.0
             ctx.count("cov_mixed_zero_and_nonzero_coordinates")
+        if rng.random() < 0.3:
+            # magnitudes around the output precision (geometry-optimiser noise): just below / above half a unit and one unit of the sixth decimal
+            for a in mol.atoms:
+                for key in ("x", "y", "z"):
+                    if rng.random() < 0.4:
+                        v = rng.choice([rng.uniform(1e-8, 4.9e-7), rng.uniform(5.1e-7, 9.9e-7), rng.uniform(1e-6, 3e-6), 7.5e-7, 6.2e-7, 9.4e-7,
+                                        round(rng.uniform(-50, 50), 5) + rng.choice([4e-7, 6e-7, -4e-7, -6e-7])])
+                        setattr(a, key, -v if rng.random() < 0.5 else v)
+            ctx.count("cov_coordinates_near_output_precision")
         g = bridge.graph_direct(mol)
         if rng.random() < 0.25:
             # flat drawings / partial positions: some coordinate KEYS are simply absent on some atoms (the writer's default is 0 per coordinate)
